@@ -14,6 +14,7 @@ mod rules;
 mod grammar;
 mod generate;
 mod cli;
+mod testrun;
 
 use common::*;
 use std::sync::Mutex;
@@ -43,6 +44,8 @@ fn main() {
     if let Some(r) = replay {
         let ok = match prop.as_str() {
             "C01" | "C02" | "C03" => matcher::replay(&r),
+            // C05 / C20 have a second harness module: the integrated end-to-end stream of testrun.rs (op `testdoc`)
+            "C05" | "C20" if testrun::is_testdoc_op(&r) => testrun::replay(&prop, &r),
             "C05" | "C14" | "C15" | "C20" => exec::replay(&prop, &r),
             "C16" => config::replay(&prop, &r),
             "C18" => envdir::replay(&prop, &r),
@@ -68,7 +71,13 @@ fn main() {
     let ctx = Ctx { driver, threads, seed, thorough: tier == "thorough", report: Mutex::new(Report::default()) };
     match prop.as_str() {
         "C01" | "C02" | "C03" => matcher::run(&ctx, &prop),
-        "C05" | "C14" | "C15" | "C20" => exec::run(&ctx, &prop),
+        "C05" | "C20" => {
+            // the pieces (validate table, scripted executor, binary on behaviours), then the integrated model of
+            // `scrut test` on documents whose commands have known output
+            exec::run(&ctx, &prop);
+            testrun::run(&ctx, &prop);
+        }
+        "C14" | "C15" => exec::run(&ctx, &prop),
         "C16" => config::run(&ctx, &prop),
         "C18" => envdir::run(&ctx, &prop),
         "C12" => shellstate::run(&ctx, &prop),
